@@ -836,7 +836,7 @@ class PubKeyV4(PubKey):
         # b) version number = 4 (1 octet);
         fp.update(b'\x04')
         # c) timestamp of key creation (4 octets);
-        fp.update(self.int_to_bytes(calendar.timegm(self.created.timetuple()), 4))
+        fp.update(self.int_to_bytes(calendar.timegm(self.created.utctimetuple()), 4))
         # d) algorithm (1 octet): 17 = DSA (example);
         fp.update(self.int_to_bytes(self.pkalg))
         # e) Algorithm-specific fields.
@@ -854,7 +854,7 @@ class PubKeyV4(PubKey):
     def __bytearray__(self):
         _bytes = bytearray()
         _bytes += super(PubKeyV4, self).__bytearray__()
-        _bytes += self.int_to_bytes(calendar.timegm(self.created.timetuple()), 4)
+        _bytes += self.int_to_bytes(calendar.timegm(self.created.utctimetuple()), 4)
         _bytes += self.int_to_bytes(self.pkalg)
         _bytes += self.keymaterial.__bytearray__()
         return _bytes
@@ -1222,7 +1222,7 @@ class LiteralData(Packet):
         filename = self.filename.encode('utf-8')
         _bytes += bytearray([len(filename)])
         _bytes += filename
-        _bytes += self.int_to_bytes(calendar.timegm(self.mtime.timetuple()), 4)
+        _bytes += self.int_to_bytes(calendar.timegm(self.mtime.utctimetuple()), 4)
         _bytes += self._contents
         return _bytes
 
